@@ -15,7 +15,7 @@ func init() {
 		Title: "Allow headers tell the truth about which methods are routable",
 		Decided: "C17.a the OPTIONS filter answers OPTIONS itself (no ProcessFilter on that branch) and passes every other method on exactly once without touching headers; C17.b Allow and Access-Control-Allow-Methods carry one and the same list, computed for this request; " +
 			"C17.c the 405 Allow list is built from the methods of the path-matching candidates (before the method filter), de-duplicated by whole-string equality; C17.d the allowed-methods computation and the JSR311 route selection accept a route on the same condition (its expression matches the remainder left by the service expression, and the final group is empty or '/') and read services and routes through the locking accessors; the choice of service is compared too (known finding: all matching services are accumulated); " +
-			"C17.e the allowed methods are recomputed from the live tables on every call (no cache or other store).",
+			"C17.e the allowed methods are recomputed from the live tables on every call (no cache or other store). C17.f = C02.l; C17.g the accessor behind computeAllowedMethods reads the field the dispatcher routes on.",
 		NotDecided: "equality of the three method sets in general (regex templates, If conditions, Curly-only template forms): a relation between the results of three computations on runtime data.",
 		Rules: []Rule{
 			{ID: "C17.a", Template: "T-ONCE", Required: true, Run: ruleC17a,
